@@ -850,6 +850,12 @@ def w_off_sweep(job):
                                {"kind": "off-factory", "unit": name, "n": n})
                     if d != 0:
                         acc.count(nontrivial=1)
+            # the timedelta factory: fractional seconds are truncated toward zero, the range is judged on the exact value
+            for d in (-999999, -1, 0, 1, 999999):
+                n = s * 10 ** 6 + d
+                ok = M.OFF_MIN_S * 10 ** 6 <= n <= M.OFF_MAX_S * 10 ** 6
+                expect_off(acc, lambda: Offset.from_timedelta(_dt.timedelta(microseconds=n)), ok, M.tdiv(n, 10 ** 6), "C03/offset/from_timedelta",
+                           "%s,d=%d" % (sgn(n), d), {"kind": "off-factory", "unit": "timedelta-us", "n": n})
         for c, oc in ocore:
             for op, e, fn in (("add", s + c, lambda: o + oc), ("sub", s - c, lambda: o - oc), ("rsub", c - s, lambda: oc - o)):
                 ok = M.in_off(e)
@@ -1063,6 +1069,16 @@ def replay(rec):
         acc.merge(w_off_misc(off_alphabet())[0])
         if "s" in case:
             acc.merge(w_off_sweep((case["s"], case["s"] + 1, (0, 1, -1), 1))[0])
+        elif k == "off-factory" and isinstance(case.get("n"), int):
+            # the sweep builds its factory arguments around a whole second: re-run the seconds the recorded argument can belong to
+            cands = set()
+            for u in (1, 10 ** 3, 10 ** 6, 10 ** 7, 10 ** 9):
+                for d in (-1, 0, 1):
+                    c = M.tdiv(case["n"], u) + d
+                    if M.OFF_MIN_S <= c <= M.OFF_MAX_S:
+                        cands.add(c)
+            for c in sorted(cands):
+                acc.merge(w_off_sweep((c, c + 1, (0, 1, -1), 1))[0])
     else:
         return False
     return rec.get("key") in acc.violations or (bool(acc.violations) and rec.get("key") is None)
